@@ -296,6 +296,17 @@ func (e *Engine) Run(t *core.Tape, cfg *core.Config, st *core.Stats) (viol *core
 	defer os.RemoveAll(dir)
 	L := lua.NewState()
 	defer L.Close()
+	// the libraries the host opened are modules registered by the host: each answers require with the table bound to
+	// its global name
+	if err := L.DoString(`for _, n in ipairs({"package", "string", "table", "coroutine", "math", "os", "io", "debug", "channel", "_G"}) do
+  local ok, m = pcall(require, n)
+  if not ok or m ~= _G[n] then LIBFAIL = n .. ": " .. tostring(m) break end
+end`); err != nil {
+		panic(err)
+	}
+	if s := L.GetGlobal("LIBFAIL"); s != lua.LNil {
+		return core.Violationf("host-module", "in a default state, require of a library the host opened must return the table bound to its global name; require %s", s.String())
+	}
 	if err := L.DoString(prelude); err != nil {
 		panic(err)
 	}
@@ -400,7 +411,7 @@ func (e *Engine) Run(t *core.Tape, cfg *core.Config, st *core.Stats) (viol *core
 	for i := 0; i < nops; i++ {
 		name := names[t.Choose(nn)]
 		fpath := filepath.Join(dir, fileKey(name)+".lua")
-		switch k := t.Weighted([]int{8, 5, 1, 1, 3, 2, 2, 1, 1, 1, 1, 1, 1, 1, 1, 1}); k {
+		switch k := t.Weighted([]int{8, 5, 1, 1, 3, 2, 2, 1, 1, 1, 1, 1, 1, 1, 1, 1, 1}); k {
 		case 0: // require
 			if !reduced && t.Choose(6) == 0 {
 				// require with an error injected at an arbitrary instruction while loaders run
@@ -787,6 +798,46 @@ func (e *Engine) Run(t *core.Tape, cfg *core.Config, st *core.Stats) (viol *core
 				return fail("host-module", "in a state without the package library, require of a registered host module and of an opened library must return the tables bound to their global names; got %s", res)
 			}
 			st.Probe("sandbox_state_require")
+		case 16: // the host registers functions under a module name twice (a library opened in two steps, a plug-in that adds to a module)
+			if reduced {
+				continue
+			}
+			lazySeq++
+			hm := fmt.Sprintf("hosttwice%d", lazySeq)
+			num := func(n int) lua.LGFunction {
+				return func(L *lua.LState) int { L.Push(lua.LNumber(n)); return 1 }
+			}
+			scripted := t.Choose(3) == 0
+			if scripted {
+				// the first table comes from a preload loader of the script, not from the host
+				if _, v := runLua(fmt.Sprintf("package.preload[%q] = function() return {one = function() return 1 end} end; require(%q); return \"\"", hm, hm)); v != nil {
+					return v
+				}
+			} else {
+				L.RegisterModule(hm, map[string]lua.LGFunction{"one": num(1)})
+				if t.Bool() {
+					if _, v := runLua(fmt.Sprintf("require(%q); return \"\"", hm)); v != nil {
+						return v
+					}
+				}
+			}
+			L.RegisterModule(hm, map[string]lua.LGFunction{"two": num(2)})
+			res, v := runLua(fmt.Sprintf("local m = require(%q); local g = _G[%q]; return tostring(type(m) == \"table\" and m.one and m.one()) .. \":\" .. tostring(type(m) == \"table\" and m.two and m.two()) .. \":\" .. tostring(g == nil or rawequal(g, m))", hm, hm))
+			if v != nil {
+				return v
+			}
+			log = append(log, fmt.Sprintf("L.RegisterModule(%q, {two}) after the module existed with {one} (first table from the script: %v) -> one():two():global %s", hm, scripted, res))
+			if res != "1:2:true" {
+				return fail("host-module", "functions the host registers under the name of a module that already exists must be reachable through require like the earlier ones; got one():two():global-is-the-module = %s", res)
+			}
+			if !scripted {
+				if res, v := runLua(fmt.Sprintf("return tostring(type(_G[%q]) == \"table\" and _G[%q].two and _G[%q].two())", hm, hm, hm)); v != nil {
+					return v
+				} else if res != "2" {
+					return fail("host-module", "a function the host registered under an existing host module is not reachable through the module's global name: %s", res)
+				}
+			}
+			st.Probe("host_module_registered_twice")
 		case 15: // a searcher of the program's own that probes an optional module (a contained, failing require) while another require is searching
 			if reduced {
 				continue
